@@ -3,6 +3,8 @@ import Gimli.Model.Index
 import Gimli.Model.Aranges
 import Gimli.Model.Pub
 import Gimli.Model.Names
+import Gimli.Model.Indexed
+import Gimli.Model.Loader
 /-! Line-protocol operations for C17 (accelerated lookups and section plumbing). The Rust side
 answering the same lines from the real crate is `harness/src/prop/c17.rs`. A trailing `exp`
 argument (the generator's own expectation, used by the Rust-side oracle only) is ignored here. -/
@@ -122,6 +124,40 @@ def nameHeaderS (e : Endian) (debugStr : Bytes) (hashes : List Nat) (oob : Bool)
       outS (fun ix => indexS e ix debugStr hashes oob) (Names.Index.new h)
   | .error x => "!" ++ x.name
 
+/-! ### loader wiring, package units -/
+
+open Loader in
+def wiringS : String :=
+  let kv (xs : List (String × String)) := join "," (xs.map fun (a, b) => a ++ "=" ++ b)
+  let names (xs : List SectionId) := join "," (xs.map (·.name))
+  let s := kv (load dwarfSectionsFields SectionId.name)
+  let d := kv ((dwarfLoad SectionId.name).map fun (slot, v) => (slot, v.getD "?"))
+  let l := kv (SectionId.all.map fun m => (m.name, match lookupMarker m with
+    | some id => id.name
+    | none => "~"))
+  let p := kv (load packageFields SectionId.name)
+  s!"S:{s}|order={names (callOrder dwarfSectionsFields)}|D:{d}|L:{l}|P:{p}|porder={names (callOrder packageFields)}"
+
+def hexList? (s : String) : Option (List Bytes) := (s.splitOn ",").mapM parseHex
+
+def pkgOf (secs : List Bytes) (k : Index.SecKind) : Bytes :=
+  match Index.sliceOrder.zip secs |>.find? (fun p => p.1 = k) with
+  | some (_, b) => b
+  | none => []
+
+/-- one `find_cu` / `find_tu` followed by reading every section of the returned `Dwarf` -/
+def dwpLookupS (e : Endian) (ix : Index.UnitIndex) (secs : List Bytes) (str addr ranges : Bytes)
+    (id : Nat) : String :=
+  match Index.find e ix id with
+  | none => "n"
+  | some row =>
+    outS (fun (slices : List (Index.SecKind × Bytes)) =>
+      s!"{row}:" ++ join "," (slices.map fun p => toHex p.2) ++ "|" ++
+        join "," [toHex addr, toHex ranges, toHex str, "-", "-", "-"])
+      (do
+        let cols ← Index.sections e ix row
+        Index.packageSlices (pkgOf secs) cols Index.sliceOrder)
+
 def handle (op : String) (args : List String) : Option String :=
   match op, args with
   | "ix-parse", [e, h] => do
@@ -152,6 +188,33 @@ def handle (op : String) (args : List String) : Option String :=
   | "nm-oob", [e, h, str, hashes, _] => do
       let e ← endian? e; let bs ← parseHex h; let str ← parseHex str; let hashes ← natList? hashes
       pure ("ok " ++ join "#" ((Names.headers e (bs.length + 2) bs 0).map (nameHeaderS e str hashes true)))
+  | "load-wiring", [] => pure ("ok " ++ wiringS)
+  | "dwp", [e, cu, tu, secs, str, ids, _] => do
+      let e ← endian? e; let cu ← parseHex cu; let tu ← parseHex tu; let secs ← hexList? secs
+      let str ← parseHex str
+      let addr := "ADDR".toUTF8.toList; let ranges := "RANGES".toUTF8.toList
+      let r : Out String := do
+        let cuIx ← Index.parse e cu
+        let tuIx ← Index.parse e tu
+        let items ← (ids.splitOn ",").mapM (fun (t : String) =>
+          match t.toList with
+          | 'c' :: rest => match (String.ofList rest).toNat? with
+            | some id => Out.ok (dwpLookupS e cuIx secs str addr ranges id)
+            | none => Out.panic "bad id"
+          | 't' :: rest => match (String.ofList rest).toNat? with
+            | some id => Out.ok (dwpLookupS e tuIx secs str addr ranges id)
+            | none => Out.panic "bad id"
+          | _ => Out.panic "bad id")
+        pure (join ";" items)
+      pure (r.render id)
+  | "stroff", [e, f, h, base, index, _] => do
+      let e ← endian? e; let f ← format? f; let bs ← parseHex h; let base ← base.toNat?
+      let index ← index.toNat?
+      pure ((Indexed.getStrOffset e f bs base index).render toString)
+  | "addrx", [e, sz, h, base, index, _] => do
+      let e ← endian? e; let sz ← sz.toNat?; let bs ← parseHex h; let base ← base.toNat?
+      let index ← index.toNat?
+      pure ((Indexed.getAddress e sz bs base index).render toString)
   | "djb-ascii", [h] => do
       let bs ← parseHex h
       -- `case_folding_djb_hash` restricted to ASCII input (`to_ascii_lowercase`, then `hash*33 + byte`)
